@@ -225,6 +225,8 @@ def cxx_context(m, tid, exp):
             return "inside-array-element"
         if exp[1][0] == "constraint":
             return "child-constraint"
+        if exp[1][0] == "trailing-in-array":
+            return "element-shorter-than-its-slot"
         w = rustwl.where_of(m, exp)
         if exp[1][0] == "length" and w.endswith(":padded"):
             return "padded-array-larger-than-its-padding"
@@ -250,13 +252,22 @@ def builder_context(m, tid):
     return "child-builder"
 
 
-def empty_elementsize_array(m, tid, v):
+def empty_elementsize_array(m, tid, v, depth=0):
+    """does the value hold (at any depth) an empty array under an _elementsize_ field? The reference does
+    not say what the field carries then (C++ writes the element's static size, Rust 0): abstain."""
+    if not isinstance(v, dict) or tid not in m.dm or depth > 6:
+        return False
     d = m.dm[tid]
     for x in m.chain(d):
-        for fl in x["fields"]:
-            if fl["kind"] == "array_field" and m.elementsize_of(x, fl["id"]) is not None and isinstance(v, dict) \
-                    and v.get(fl["id"]) == []:
+        for fl in x.get("fields", ()):
+            fid = fl.get("id")
+            if fl["kind"] == "array_field" and m.elementsize_of(x, fid) is not None and v.get(fid) == []:
                 return True
+            t = fl.get("type_id") if fl["kind"] in ("typedef_field", "array_field") else None
+            if t and m.kind(t) == "struct_declaration" and fid in v and v[fid] is not None:
+                sub = v[fid] if isinstance(v[fid], list) else [v[fid]]
+                if any(empty_elementsize_array(m, t, e, depth + 1) for e in sub):
+                    return True
     return False
 
 
